@@ -46,8 +46,10 @@ class Checker:
         self.prop = prop
 
     # ------------------------------------------------------------------------------------------
-    def eq(self, rule, fn, what, got, want, facts, key=None, detail=None, sample=True, imprecise_undecided=False):
-        """obligation: got == want under facts (for every resolution of γ-conditions)"""
+    def eq(self, rule, fn, what, got, want, facts, key=None, detail=None, sample=True, imprecise_undecided=True):
+        """obligation: got == want under facts (for every resolution of γ-conditions).  A residue that still contains
+        operator atoms the linear reasoning treats as opaque (shifts, masks, divisions) proves nothing either way: the
+        obligation is then undecided (analysis-broken), never a violation"""
         tu, rec = self.tu, self.rec
         sm = tu.S(fn)
         verdict = True
